@@ -293,7 +293,11 @@ func runC19(c *Check, w *World) {
 		}
 		wi := findWindow(c, w, tb, "R19.1", f, isStepValidator(w))
 		if wi != nil && wi.bound != nil {
-			it := iv.At(stripConv(wi.bound), wi.header)
+			sz := wi.bound
+			if size, _, isOff := offsetForm(tb, wi); isOff {
+				sz = size // i runs 0..2s: 2s+1 iterations like the symmetric form
+			}
+			it := iv.At(stripConv(sz), wi.header)
 			c.Decide(it.Hi != nil && it.Hi.Cmp(big.NewInt(10)) <= 0, "R19.1", FuncName(f), "window-bounded", "the client-chosen window is at most 10 at the loop", "the client-chosen window can be "+it.String()+" at the loop: one request occupies a worker for an unbounded time", w.InstrPos(wi.cond))
 		}
 	}
